@@ -350,7 +350,10 @@ class Interp:
         self.cfg_values = {}
         self.keep_refs = False
         self.current_call = None
+        self.current_env = None
         self.last_self = None
+        self.last_mut = {}
+        self.mut_params = []
         self.fns_executed = set()
         self.depth = 0
 
@@ -431,10 +434,46 @@ class Interp:
                 c, binds = self.match_pat(p["pat"], a)
                 env.update(binds)
         self.self_ty.append(own)
+        self.mut_params.append([p["pat"]["name"] for p in params
+                                if p["name"] != "self" and p.get("pat", {}).get("k") == "ident" and p.get("ty", "").replace(" ", "").startswith("&mut")])
         try:
             return self.run_body(fname, f["body"], env, pc)
         finally:
             self.self_ty.pop()
+            self.mut_params.pop()
+
+    def snap(self, env):
+        """values, at a return point, of `self` and of the current function's `&mut` parameters"""
+        out = {"self": env.get("self")}
+        for n in (self.mut_params[-1] if self.mut_params else ()):
+            out[n] = env.get(n)
+        return out
+
+    def write_back_mut_args(self, fname, arg_asts, env, pc):
+        """after a call of a user function: `&mut` arguments that are places receive the callee's final value"""
+        lm, self.last_mut = self.last_mut, {}
+        f = self.fns.get(fname)
+        if not f or not lm:
+            return env, pc
+        params = [p for p in f["sig"]["params"] if p["name"] != "self"]
+        for p, a in zip(params, arg_asts):
+            n = p.get("pat", {}).get("name") if p.get("pat", {}).get("k") == "ident" else None
+            if n is None or n not in lm:
+                continue
+            place = strip_ref(a)
+            if place["k"] not in ("path", "field", "index"):
+                continue
+            if place["k"] == "path" and place["path"] not in env:
+                continue
+            try:
+                cur, _, _ = self.eval(place, env, pc)
+            except Unsupported:
+                continue
+            nv = lm[n]
+            if type(cur) is not type(nv) or (isinstance(cur, VStruct) and cur.name != nv.name):
+                continue  # the parameter name was rebound to something else inside the callee
+            _, env, pc = self.assign_to(place, nv, env, pc)
+        return env, pc
 
     def run_body(self, name, body, env, pc):
         self.depth += 1
@@ -452,16 +491,19 @@ class Interp:
             self.depth -= 1
         rets = list(fr.rets)
         if not z3.is_false(z3.simplify(pout)):
-            rets.append((pout, v, envf.get("self")))
+            rets.append((pout, v, self.snap(envf)))
         if not rets:
             raise Unsupported("function %s never returns" % name)
         res = rets[-1][1]
-        self_out = rets[-1][2]
-        for g, val, sv in reversed(rets[:-1]):
+        outs = dict(rets[-1][2])  # final values of `self` and of the `&mut` parameters at the last return point
+        for g, val, snap in reversed(rets[:-1]):
             res = ite(g, val, res)
-            if sv is not None and self_out is not None:
-                self_out = ite(g, sv, self_out)
+            for k in list(outs):
+                if snap.get(k) is not None and outs[k] is not None:
+                    outs[k] = ite(g, snap[k], outs[k])
+        self_out = outs.get("self")
         self.last_self = self.name_value(self_out) if self_out is not None else None
+        self.last_mut = {k: self.name_value(v) for k, v in outs.items() if k != "self" and v is not None and not isinstance(v, (VRefPlace, VUninit))}
         return self.name_value(res)
 
     def name_value(self, v):
@@ -890,7 +932,7 @@ class Interp:
             v, env, pc = self.eval(e["expr"], env, pc)
         else:
             v = VUnit()
-        self.frames[-1].rets.append((pc, v, env.get("self")))
+        self.frames[-1].rets.append((pc, v, self.snap(env)))
         return VUnit(), env, z3.BoolVal(False)
 
     def e_try(self, e, env, pc):
@@ -899,12 +941,12 @@ class Interp:
             raise Unsupported("? on " + type(v).__name__)
         if v.ty == "Option":
             good = is_some(v)
-            self.frames[-1].rets.append((z3.And(pc, z3.Not(good)), none(), env.get("self")))
+            self.frames[-1].rets.append((z3.And(pc, z3.Not(good)), none(), self.snap(env)))
             pl = v.payload.get("Some")
         else:
             good = is_ok(v)
             ev = v.payload.get("Err", [VUnit()])[0]
-            self.frames[-1].rets.append((z3.And(pc, z3.Not(good)), err(ev), env.get("self")))
+            self.frames[-1].rets.append((z3.And(pc, z3.Not(good)), err(ev), self.snap(env)))
             pl = v.payload.get("Ok")
         if pl is None:
             return VUninit(), env, z3.BoolVal(False)
@@ -1160,25 +1202,29 @@ class Interp:
             two_ = "::".join(p.split("::")[-2:])
             if p in self.overrides or two_ in self.overrides or last in self.overrides:
                 self.models_used.add("stub:" + two_)
+                self.current_call = (e, None)
+                self.current_env = env
                 r = (self.overrides.get(p) or self.overrides.get(two_) or self.overrides[last])(self, args, pc)
                 if isinstance(r, Effects):
                     for i, nv in r.args.items():
                         _, env, pc = self.assign_to(strip_ref(e["args"][i]), nv, env, pc)
+                    for place, nv in r.places:
+                        _, env, pc = self.assign_to(strip_ref(place), nv, env, pc)
                     r = r.ret
                 return r, env, pc
             if p in self.fns:
-                return self.call(p, args, pc), env, pc
+                return self.call_user(p, args, e["args"], env, pc)
             if p.startswith("Self::") and self.self_ty and self.self_ty[-1] and (self.self_ty[-1] + "::" + last) in self.fns:
-                return self.call(self.self_ty[-1] + "::" + last, args, pc), env, pc
+                return self.call_user(self.self_ty[-1] + "::" + last, args, e["args"], env, pc)
             two = "::".join(p.split("::")[-2:])
             if two in self.fns:
-                return self.call(two, args, pc), env, pc
+                return self.call_user(two, args, e["args"], env, pc)
             m = LIB_FUNCS.get(p) or LIB_FUNCS.get(two)
             if m is not None:
                 return m(self, args, pc), env, pc
             if "::" in p and last in self.fns and not last[:1].isupper() and not p.split("::")[-2][:1].isupper():
                 # module-qualified free function, e.g. jumbf::labels::to_normalized_uri
-                return self.call(last, args, pc), env, pc
+                return self.call_user(last, args, e["args"], env, pc)
             if "::" in p and last[:1].isupper():
                 ty = p.split("::")[-2]
                 return VEnum(ty, TAG(ty, last), {last: args}), env, pc
@@ -1187,6 +1233,11 @@ class Interp:
                 return VStruct(p, {str(i): a for i, a in enumerate(args)}), env, pc
             raise Unsupported("call to unknown function %s (line %s)" % (p, e.get("line")))
         raise Unsupported("call of non-path expression")
+
+    def call_user(self, fname, args, arg_asts, env, pc):
+        r = self.call(fname, args, pc)
+        env, pc = self.write_back_mut_args(fname, arg_asts, env, pc)
+        return r, env, pc
 
     def call_closure_env(self, clo, args, pc):
         """run a closure and return the final values of its parameters (for `|x| x.push(..)`-style mutation)"""
@@ -1224,11 +1275,15 @@ class Interp:
                 self.keep_refs = False
         else:
             recv, env, pc = self.eval(recv_ast, env, pc)
+        if isinstance(recv, VUninit) and z3.is_false(z3.simplify(pc)):
+            # the receiver is the value of an unreachable path (e.g. `x.ok_or(..)?.m()` after the `?` returned)
+            return VUninit(), env, pc
         if isinstance(recv, VRefPlace):
             # method call through a `&mut` alias: operate on the place itself
             recv_ast = recv.place
             recv, env, pc = self.eval(recv_ast, env, pc)
         self.current_call = (e, recv_ast)
+        self.current_env = env
         args = []
         for a in e["args"]:
             v, env, pc = self.eval(a, env, pc)
@@ -1253,6 +1308,7 @@ class Interp:
                 p0 = self.fns[key]["sig"]["params"][:1]
                 if p0 and p0[0].get("mut_ref") and self.last_self is not None:
                     _, env, pc = self.assign_to(strip_ref(recv_ast), self.last_self, env, pc)
+                env, pc = self.write_back_mut_args(key, e["args"], env, pc)
                 return r, env, pc
         # mutating String methods update the receiver variable
         if name in ("push_str", "push") and isinstance(recv, VStr):
@@ -1329,6 +1385,10 @@ class Interp:
 
     def e_for(self, e, env, pc):
         it, env, pc = self.eval(e["iter"], env, pc)
+        if isinstance(it, VStruct) and (it.name + "::into_iter") in self.overrides:
+            # `for x in container`: IntoIterator of a modelled container type
+            self.models_used.add("stub:%s::into_iter" % it.name)
+            it = self.overrides[it.name + "::into_iter"](self, [it], pc)
         if isinstance(it, VIter):
             it = it.vec
         if not isinstance(it, VVec):
@@ -1650,6 +1710,35 @@ def m_any(I, it, args, pc, e):
     return _forall_items(I, it, args[0], pc, False)
 
 
+def m_iter_find(I, it, args, pc, e):
+    """Iterator::find / position: first element for which the predicate holds"""
+    vec = it.vec if isinstance(it, VIter) else it
+    res = none()
+    for i in range(len(vec.items) - 1, -1, -1):
+        live = z3.And(pc, ugt(vec.n, bv(i)))
+        if z3.is_false(z3.simplify(live)):
+            continue
+        r = I.call_closure(args[0], [vec.items[i]], live)
+        if not isinstance(r, VBool):
+            raise Unsupported("closure in find must return bool")
+        res = ite(z3.And(ugt(vec.n, bv(i)), r.e), some(vec.items[i]), res)
+    return res
+
+
+def m_position(I, it, args, pc, e):
+    vec = it.vec if isinstance(it, VIter) else it
+    res = none()
+    for i in range(len(vec.items) - 1, -1, -1):
+        live = z3.And(pc, ugt(vec.n, bv(i)))
+        if z3.is_false(z3.simplify(live)):
+            continue
+        r = I.call_closure(args[0], [vec.items[i]], live)
+        if not isinstance(r, VBool):
+            raise Unsupported("closure in position must return bool")
+        res = ite(z3.And(ugt(vec.n, bv(i)), r.e), some(VInt(i)), res)
+    return res
+
+
 def m_collect(I, it, args, pc, e):
     return it.vec
 
@@ -1663,6 +1752,21 @@ def m_iter_next(I, it, args, pc, e):
 
 def m_count(I, it, args, pc, e):
     return VInt(it.vec.n)
+
+
+def m_iter_filter(I, it, args, pc, e):
+    """Iterator::filter of which only `.count()` is modelled: the number of elements satisfying the predicate"""
+    vec = it.vec if isinstance(it, VIter) else it
+    n = bv(0)
+    for i, x in enumerate(vec.items):
+        live = z3.And(pc, ugt(vec.n, bv(i)))
+        if z3.is_false(z3.simplify(live)):
+            continue
+        r = I.call_closure(args[0], [x], live)
+        if not isinstance(r, VBool):
+            raise Unsupported("closure in filter must return bool")
+        n = n + z3.If(z3.And(ugt(vec.n, bv(i)), r.e), bv(1), bv(0))
+    return VCount(n)
 
 
 def m_vec_len(I, v, args, pc, e):
@@ -1868,6 +1972,28 @@ def m_opt_map(I, o, args, pc, e):
     return opt(is_some(o), r)
 
 
+def m_opt_map_or(I, o, args, pc, e):
+    """Option::map_or(default, f)"""
+    if "Some" not in o.payload:
+        return args[0]
+    r = I.call_closure(args[1], [o.payload["Some"][0]], z3.And(pc, is_some(o)))
+    return ite(is_some(o), r, args[0])
+
+
+def m_opt_is_some_and(I, o, args, pc, e):
+    if "Some" not in o.payload:
+        return VBool(False)
+    r = I.call_closure(args[0], [o.payload["Some"][0]], z3.And(pc, is_some(o)))
+    return VBool(z3.And(is_some(o), r.e))
+
+
+def m_opt_unwrap_or_else(I, o, args, pc, e):
+    d = I.call_closure(args[0], [], z3.And(pc, z3.Not(is_some(o))))
+    if "Some" not in o.payload:
+        return d
+    return ite(is_some(o), o.payload["Some"][0], d)
+
+
 def m_opt_and_then(I, o, args, pc, e):
     pl = o.payload.get("Some")
     if pl is None or z3.is_false(z3.simplify(z3.And(pc, is_some(o)))):
@@ -1989,9 +2115,12 @@ METHODS = {
     ("VChar", "clone"): m_ident,
     ("VIter", "all"): m_all,
     ("VIter", "any"): m_any,
+    ("VIter", "find"): m_iter_find,
+    ("VIter", "position"): m_position,
     ("VIter", "collect"): m_collect,
     ("VIter", "next"): m_iter_next,
     ("VIter", "count"): m_count,
+    ("VIter", "filter"): m_iter_filter,
     ("VVec", "len"): m_vec_len,
     ("VVec", "iter"): m_vec_iter,
     ("VVec", "into_iter"): m_vec_iter,
@@ -2006,6 +2135,9 @@ METHODS = {
     ("Option", "is_none"): m_opt_is_none,
     ("Option", "map"): m_opt_map,
     ("Option", "and_then"): m_opt_and_then,
+    ("Option", "map_or"): m_opt_map_or,
+    ("Option", "is_some_and"): m_opt_is_some_and,
+    ("Option", "unwrap_or_else"): m_opt_unwrap_or_else,
     ("Option", "copied"): m_ident,
     ("Option", "cloned"): m_ident,
     ("Option", "as_deref"): m_ident,
